@@ -69,10 +69,36 @@ def generated_cases(rng, n):
                 t[1] = "x%d" % k
         doc[0][1] = "root"
         doc[0][2] = 0
+        # forward references: some uses point at an element that is defined LATER in the document (cycles that arise are
+        # DocFault's CyclicUses)
+        for i, t in enumerate(doc):
+            if t[0] == "use" and rng.random() < 0.3:
+                later = [u[1] for u in doc[i + 1:] if u[0] not in ("end", "use", "defs")]
+                if later:
+                    t[4] = [rng.choice(later)] + list(t[4][1:])
         idx = [i + 1 for i, t in enumerate(doc) if t[0] != "end"]
         fs = sorted(rng.sample(idx, min(len(idx), rng.choice([1, 1, 2, 3]))))
         out.append({"doc": doc, "faults": [[i, rng.choice(faults_of(doc[i - 1][0]))] for i in fs]})
+    out[:0] = forward_seeds()
     return out
+
+
+def forward_seeds():
+    """hand-made: a group that is used BEFORE it is defined, contains a dangling use, and is used again afterwards"""
+    from .docgen import NOL, A, E0
+    root = ["svg", "root", 0, False, [NOL, NOL, A(200), A(100), [], ["xMidYMid", ""]], []]
+    seeds = []
+    for inner in ("use_dangling_first", "use_dangling_last"):
+        for later_uses in (1, 2):
+            rect = ["rect", "r1", 0, False, [A(1), A(2), A(30), A(40), NOL, NOL], []]
+            dang = ["use", "u2", 0, False, ["r1", A(3), NOL], []]              # made dangling by the fault below
+            body = [dang, rect] if inner == "use_dangling_first" else [rect, dang]
+            doc = [list(root), ["use", "u1", 0, False, ["A", NOL, A(5)], []], ["g", "A", 2, False, [], []]] + body + [list(E0)]
+            doc += [["use", "u%d" % (3 + j), 0, False, ["A", A(10 * (j + 1)), NOL], []] for j in range(later_uses)]
+            doc += [["circle", "c1", 0, False, [A(5), A(6), A(7)], []], list(E0)]
+            fault_at = 1 + doc.index(dang)
+            seeds.append({"doc": doc, "faults": [[fault_at, "href_missing"]]})
+    return seeds
 
 
 def worker_init():
